@@ -78,15 +78,22 @@ FLAVOURS = {
 }
 
 
-def _prune_cache(keep=6):
+def _prune_cache(keep=40, min_age_s=6 * 3600):
+    """remove old build directories; never one that may be in use (younger than min_age_s; every
+    build_shadow() call touches the directory it returns)"""
     try:
         ents = [os.path.join(CACHE_ROOT, d) for d in os.listdir(CACHE_ROOT)
                 if os.path.isdir(os.path.join(CACHE_ROOT, d))]
     except OSError:
         return
+    now = time.time()
     ents.sort(key=lambda p: os.path.getmtime(p), reverse=True)
     for p in ents[keep:]:
-        shutil.rmtree(p, True)
+        try:
+            if now - os.path.getmtime(p) > min_age_s:
+                shutil.rmtree(p, True)
+        except OSError:
+            pass
 
 
 def build_shadow(flavour="normal"):
